@@ -7,6 +7,8 @@ import (
 	"sync"
 
 	"github.com/jf-tech/omniparser"
+	"github.com/jf-tech/omniparser/extensions/omniv21"
+	"github.com/jf-tech/omniparser/extensions/omniv21/fileformat"
 	"github.com/jf-tech/omniparser/idr"
 
 	"verif/mc/hx"
@@ -25,6 +27,8 @@ func RaceScenario(name string) error {
 			err = raceTransforms(false)
 		case "javascript":
 			err = raceTransforms(true)
+		case "newschema":
+			err = raceNewSchema()
 		default:
 			return fmt.Errorf("unknown scenario %s", name)
 		}
@@ -107,6 +111,65 @@ type raceJob struct {
 	input  string
 	ext    map[string]string
 	solo   string
+}
+
+// raceNewSchema: goroutines creating Schemas at the same time through ONE shared Extension value (the way an
+// application configures it once): its CreateParams lists a caller-supplied file format in a slice with
+// spare capacity. Each goroutine creates schemas under names of its own - a built-in format, the custom
+// format, and one whose FINAL_OUTPUT xpath is turned down: the error names the schema it was created as, the
+// accepted schemas transform their input as they do alone.
+func raceNewSchema() error {
+	formats := make([]fileformat.FileFormat, 0, 16)
+	formats = append(formats, &c01LinesFormat{mode: "pool"})
+	ext := omniparser.Extension{
+		CreateSchemaHandler:       omniv21.CreateSchemaHandler,
+		CreateSchemaHandlerParams: &omniv21.CreateParams{CustomFileFormats: formats},
+	}
+	hdr := func(f string) string { return `"parser_settings":{"version":"omni.2.1","file_format_type":"` + f + `"}` }
+	good := `{` + hdr("csv2") + `,"file_declaration":{"delimiter":",","records":[{"columns":[{"name":"a"}]}]},"transform_declarations":{"FINAL_OUTPUT":{"object":{"a":{"xpath":"a"}}}}}`
+	bad := `{` + hdr("json") + `,"transform_declarations":{"FINAL_OUTPUT":{"xpath":"/*[","object":{"a":{"xpath":"a"}}}}}`
+	custom := c01CustomSchemaText("pool")
+	one := func(name string) (string, error) {
+		var out []string
+		for _, text := range []string{good, custom, bad, good} {
+			s, err := omniparser.NewSchema(name, strings.NewReader(text), ext)
+			if err != nil {
+				out = append(out, "error: "+err.Error())
+				continue
+			}
+			r := hx.Run(s, strings.NewReader("x\ny\n"), hx.Opts{MaxReads: 50})
+			out = append(out, hx.Transcript(r.Steps)+r.PanicSite)
+		}
+		return strings.Join(out, "\n--\n"), nil
+	}
+	const G = 8
+	solo := make([]string, G)
+	for g := 0; g < G; g++ {
+		solo[g], _ = one(fmt.Sprintf("schema-%d", g))
+		if !strings.Contains(solo[g], fmt.Sprintf("schema-%d", g)) {
+			return fmt.Errorf("harness: the turned-down schema's error does not name it: %s", solo[g])
+		}
+	}
+	var wg sync.WaitGroup
+	errs := make(chan error, G)
+	for g := 0; g < G; g++ {
+		wg.Add(1)
+		go func(g int) {
+			defer wg.Done()
+			for r := 0; r < 150; r++ {
+				if got, _ := one(fmt.Sprintf("schema-%d", g)); got != solo[g] {
+					select {
+					case errs <- fmt.Errorf("NewSchema(%q, ...) through a shared Extension, %d goroutines at once, differs from the same calls alone:\n%s\n-- alone:\n%s", fmt.Sprintf("schema-%d", g), G, got, solo[g]):
+					default:
+					}
+					return
+				}
+			}
+		}(g)
+	}
+	wg.Wait()
+	close(errs)
+	return <-errs
 }
 
 func raceTransforms(jsOnly bool) error {
